@@ -11,6 +11,7 @@ pub struct Bus {
     pub dir: PathBuf,
     pub iface: String,
     sock: Arc<UnixDatagram>,
+    marker_sock: UnixDatagram,
     own: PathBuf,
     inbox: Arc<Mutex<Vec<[u8; 16]>>>,
     stop: Arc<AtomicBool>,
@@ -69,7 +70,9 @@ impl Bus {
                 }
             }
         });
-        Bus { dir, iface: iface.to_string(), sock, own, inbox, stop, reader: Some(reader) }
+        let marker_sock = UnixDatagram::unbound().unwrap();
+        marker_sock.set_nonblocking(true).unwrap();
+        Bus { dir, iface: iface.to_string(), sock, marker_sock, own, inbox, stop, reader: Some(reader) }
     }
 
     /// Put a raw 16-byte can_frame on the bus (delivered to every other socket).
@@ -117,6 +120,45 @@ impl Bus {
         None
     }
 
+    /// Everything that was put on the bus before this call.  Sends on the emulated bus are synchronous
+    /// (the datagram is in our queue when the sender returns) and a Unix datagram queue is FIFO, so a
+    /// marker sent to ourselves now arrives after all of it: no timing assumption.
+    pub fn sync(&self) -> Vec<[u8; 16]> {
+        static SEQ: std::sync::atomic::AtomicU64 = std::sync::atomic::AtomicU64::new(1);
+        let seq = SEQ.fetch_add(1, Ordering::SeqCst);
+        let mut marker = [0u8; 16];
+        marker[0..4].copy_from_slice(&0xFFFF_FFFFu32.to_le_bytes());
+        marker[8..16].copy_from_slice(&seq.to_le_bytes());
+        let mut sent = false;
+        for _ in 0..20000 {
+            if self.marker_sock.send_to(&marker, &self.own).is_ok() {
+                sent = true;
+                break;
+            }
+            std::thread::sleep(Duration::from_micros(50));
+        }
+        if !sent {
+            return self.drain(20);
+        }
+        let mut out = vec![];
+        for _ in 0..50000 {
+            let got = self.take();
+            let mut done = false;
+            for r in got {
+                if r == marker {
+                    done = true;
+                } else if r[0..4] != 0xFFFF_FFFFu32.to_le_bytes() {
+                    out.push(r);
+                }
+            }
+            if done {
+                return out;
+            }
+            std::thread::sleep(Duration::from_micros(50));
+        }
+        out
+    }
+
     /// Everything that arrives until the bus has been quiet for `quiet_ms`.
     pub fn drain(&self, quiet_ms: u64) -> Vec<[u8; 16]> {
         let mut out = vec![];
@@ -127,7 +169,7 @@ impl Bus {
                 std::thread::sleep(Duration::from_micros(100));
                 quiet += 1;
             } else {
-                out.extend(got);
+                out.extend(got.into_iter().filter(|r| r[0..4] != 0xFFFF_FFFFu32.to_le_bytes()));
                 quiet = 0;
             }
         }
